@@ -134,20 +134,24 @@ func applyStringConstraints(constraints *validate.FieldRules, schema *base.Schem
 	if len(stringConstraints.GetIn()) > 0 {
 		schema.Enum = make([]*yaml.Node, 0, len(stringConstraints.GetIn()))
 		for _, value := range stringConstraints.GetIn() {
-			schema.Enum = append(schema.Enum, &yaml.Node{
-				Kind:  yaml.ScalarNode,
-				Value: value,
-			})
+			schema.Enum = append(schema.Enum, stringNode(value))
 		}
 	}
 
 	// Const value
 	if stringConstraints.HasConst() {
-		val := stringConstraints.GetConst()
-		schema.Const = &yaml.Node{
-			Kind:  yaml.ScalarNode,
-			Value: val,
-		}
+		schema.Const = stringNode(stringConstraints.GetConst())
+	}
+}
+
+// stringNode is a YAML scalar that holds a string. The explicit tag keeps values such as "",
+// "123", "true" or "null" strings when the document is rendered and read back; an untagged
+// scalar is re-typed by the reader, and an untagged empty one cannot be rendered at all.
+func stringNode(value string) *yaml.Node {
+	return &yaml.Node{
+		Kind:  yaml.ScalarNode,
+		Tag:   "!!str",
+		Value: value,
 	}
 }
 
